@@ -261,7 +261,10 @@ def random_config(r: random.Random, P, allow_cost=True, ca=None):
         r.shuffle(dec)
         cfg["decision"] = dec
     if vh == 3:
-        cfg["vparams"] = [[r.randint(1, 3) for _ in range(width)] for _ in P["doms"]]
+        # max_regret only ranks the domains: null costs (ignored values, as on the diagonal of the shipped TSP matrices)
+        # are in contract for it; min_cost must always find a positive cost, so its tables stay positive
+        zeros = r.random() < 0.5
+        cfg["vparams"] = [[r.choice([0, 0, 1, 2, 3]) if zeros else r.randint(1, 3) for _ in range(width)] for _ in P["doms"]]
     if dh == 4:
         cfg["dparams"] = [[r.randint(1, 3) for _ in range(width)] for _ in P["doms"]]
     return cfg
